@@ -184,6 +184,23 @@ pub const KEY_EXPRS: &[&str] = &[
     "1", "\"s\"", "()", "x", "self", "Self::K", "this", "other", "state", "_self_0", "|a, b| a == b",
     "f", "f64::total_cmp", "|a, h| a.hash(h)", "|a, b| a.partial_cmp(b)", "|a, b| a.cmp(b)",
 ];
+/// Expressions for `#[default(<expr>)]` (and reused for key/by): every syntactic class of
+/// expression, in particular those that begin with a block-like expression, which are not
+/// expressions any more when spliced at the start of a statement or match arm.
+pub const VALUE_EXPRS: &[&str] = &[
+    "1", "-1", "1.5", "\"s\"", "'c'", "b\"x\"", "true", "_", "x", "X", "X::A", "Self::A", "r#type",
+    "::core::default::Default::default()", "Self::new()", "X(1)", "X { a: 1 }", "X::<T>::new()",
+    "(1, 2)", "()", "[1, 2]", "[0; 3]", "&1", "&mut 1", "*x", "!x", "-x", "1 + 2", "a && b",
+    "a as u8", "a..b", "..", "a..=b", "x?", "x.y", "x.0", "x[0]", "f()", "x.f()", "|a| a", "move || 1",
+    "m!()", "m![1]", "m! { 1 }", "{ 1 }", "{ X(1) } + X(2)", "{ 1 } - 1", "{ a }.b()", "{ a }.0",
+    "{ a } as u8", "{ f }(1)", "{ a }[0]", "{ a }?", "{ a }..", "{ a } = 1",
+    "if a { 1 } else { 2 }", "if a { 1 } else { 2 } + 3", "match x { _ => 1 }", "match x { _ => 1 } - 1",
+    "unsafe { 1 }", "unsafe { 1 } * 2", "loop { break 1 }", "loop { break 1 } + 1", "'a: { 1 }",
+    "async { 1 }", "const { 1 }", "while a {}", "for a in b {}", "return", "return 1", "break",
+    "continue", "let a = 1", "a = 1", "a += 1", "x.await", "#[a] 1", "(1)", "((1))", "1, 2", "1;",
+    "{ let a = 1; a }", "X { a: { 1 } + 2 }", "if let Some(a) = b { a } else { c }",
+    "[1; N]", "<T as Tr>::f()", "T::default()", "T::C", "<T>::C", "Vec::<T>::new()", "vec![T::default()]",
+];
 const TYPES: &[&str] = &[
     "u8", "String", "T", "U", "Vec<T>", "Option<T>", "&'a T", "&'a str", "[T; N]", "[u8; 3]",
     "(T, u8)", "()", "fn(T) -> T", "dyn A + B", "dyn A", "Box<dyn Fn(T) -> T>",
@@ -608,7 +625,11 @@ fn op_key_expr(c: &mut Cand, rng: &mut Rng, _: &Pool) -> bool {
     // variant or the type
     let cmp = rng.pick_str(&["ord", "partial_ord", "eq", "partial_eq", "hash"]);
     let arg = if rng.chance(3, 4) { "key" } else { "by" };
-    let expr = rng.pick_str(KEY_EXPRS);
+    let expr = if rng.chance(1, 4) {
+        rng.pick_str(VALUE_EXPRS)
+    } else {
+        rng.pick_str(KEY_EXPRS)
+    };
     let extra = match rng.weighted(&[10, 1, 1, 1, 1]) {
         0 => String::new(),
         1 => ", bound(T)".to_string(),
@@ -635,6 +656,32 @@ fn op_key_expr(c: &mut Cand, rng: &mut Rng, _: &Pool) -> bool {
             slots[d][pos] = a;
             return true;
         }
+    }
+    let at = rng.below(slots[d].len() + 1);
+    slots[d].insert(at, a);
+    true
+}
+fn op_default_expr(c: &mut Cand, rng: &mut Rng, _: &Pool) -> bool {
+    // `#[default(<expr>)]` (optionally with a bound) on the type, a variant or a field
+    let expr = rng.pick_str(VALUE_EXPRS);
+    let extra = match rng.weighted(&[8, 1, 1, 1]) {
+        0 => "",
+        1 => ", bound(T)",
+        2 => ", bound()",
+        _ => ", bound(..)",
+    };
+    let Some(a) = attr_from(&format!("#[default({expr}{extra})]")) else {
+        return false;
+    };
+    let mut slots = attr_slots(&mut c.item);
+    if slots.is_empty() {
+        return false;
+    }
+    // the type-level slot half of the time: that is where the value becomes a function body
+    let d = if rng.chance(1, 2) { 0 } else { rng.below(slots.len()) };
+    if let Some(pos) = slots[d].iter().position(|x| x.path().is_ident("default")) {
+        slots[d][pos] = a;
+        return true;
     }
     let at = rng.below(slots[d].len() + 1);
     slots[d].insert(at, a);
@@ -1628,6 +1675,7 @@ const OPS: &[(&str, Op, usize)] = &[
     ("attr-insert", op_attr_insert, 10),
     ("attr-args-edit", op_attr_args_edit, 14),
     ("key-expr", op_key_expr, 6),
+    ("default-expr", op_default_expr, 5),
     ("trait-list", op_trait_list, 12),
     ("field-delete", op_field_delete, 4),
     ("field-duplicate", op_field_duplicate, 3),
@@ -1849,6 +1897,11 @@ pub fn selftest_dictionaries() -> Vec<String> {
     for s in BOUND_ARGS {
         if lex(s).is_none() {
             bad.push(format!("BOUND_ARGS: {s}"));
+        }
+    }
+    for s in VALUE_EXPRS {
+        if attr_from(&format!("#[default({s})]")).is_none() {
+            bad.push(format!("VALUE_EXPRS: {s}"));
         }
     }
     for s in KEY_EXPRS {
